@@ -1,7 +1,7 @@
 (* C08 (record level): a coverage row bins each valid window by the multiplicity of its canonical k-mer. *)
 From Coq Require Import NArith ZArith List Reals.
 From Flocq Require Import Core.
-From KT Require Import Gen.Generated Gen.Alphabet Gen.GeneratedFacts Model.Kmer Model.Ops Model.Rows.
+From KT Require Import Gen.Generated Gen.Alphabet Gen.FactsBase Gen.FactTableKmer Model.Kmer Model.Ops Model.Rows.
 From KT Require Import Model.Pipeline Proof.Oligo Proof.RowsProof Proof.FileSpecProof.
 From KT Require Proof.Merge.
 From KT Require Import Model.Show Proof.FmtError Model.CtrFs Proof.CovFsProof.
